@@ -348,7 +348,13 @@ Section Sonic.
   (* numbers of a tree that overflow binary64 *)
   Fixpoint has_inf (j : jv) : bool :=
     match j with
-    | JNum t => match f64_of_text t with Some (FBits _) => false | _ => true end
+    | JNum t =>
+      (* a number below 10^300 cannot overflow: only the others need the exact conversion *)
+      match dec_of_text t with
+      | Some d => if (Z.of_nat (d_ndig d) + d_exp d <=? 300)%Z then false
+                  else match f64_of_dec d with FBits _ => false | FInf => true end
+      | None => true
+      end
     | JArr _ l => existsb has_inf l
     | JObj _ l => existsb (fun kv => has_inf (snd kv)) l
     | _ => false
